@@ -10,8 +10,8 @@
 From Coq Require Import List Bool Arith.
 From Coq Require Import Init.Byte.
 From LMBase Require Import Res.
-From LMTransfac Require Import Bytes Stream Nom TransfacParse TransfacReader Checkers.
-From LMTransfac Require Import StreamProofs NomProofs ParseProofs ReaderProofs CheckProofs.
+From LMTransfac Require Import Bytes Stream Nom TransfacParse TransfacReader Checkers TransfacPoll TransfacFault GenReader.
+From LMTransfac Require Import StreamProofs NomProofs ParseProofs ReaderProofs CheckProofs PollProofs FaultProofs FaultTotal.
 Import ListNotations.
 
 (* The record parser answers Ok / Error / Failure on every input: nom's Incomplete (which
@@ -88,6 +88,203 @@ Example f18_fixed :
   run_reader (parse_record_fixed Dna) [["P"; "0"; " "; " "]%byte] = Ok [OErr ENom].
 Proof. vm_compute. reflexivity. Qed.
 
+(* ---- round 3: EACH request returns, also the requests made after an error / the end of input ---- *)
+
+(* Reader::new followed by ANY number k of calls of `next`, whatever they return: every call
+   returns (the run is Ok: no Panic, no OutOfFuel) and there are exactly k outcomes.  The
+   state the code keeps after each kind of error (buffer and `last` unchanged after an
+   invalid-UTF-8 line, whose bytes are consumed; buffer kept after a parse error) satisfies
+   the reader's invariant again.  A change that clears the buffer on an error but leaves
+   `last` (seeded/C15/5) violates this: its second request slices `buffer[last..]` out of bounds. *)
+Theorem reader_polls_total : forall (al : alpha) (s : stream) (k : nat),
+  exists l, run_polls (parse_record_fixed al) k s = Ok l /\ length l = k.
+Proof. intros al s k. apply run_polls_total. exact (parse_record_fixed_total al). Qed.
+
+(* The consumer of the harness: records up to the first error / end of input, then `post` more
+   requests: records, one outcome that is not a record, then exactly `post` outcomes. *)
+Theorem reader_total_post : forall (al : alpha) (s : stream) (post : nat),
+  exists l, run_reader_post (parse_record_fixed al) post s = Ok l /\
+            exists rs o tail, l = map ORec rs ++ o :: tail /\ is_rec o = false /\ length tail = post.
+Proof. intros al s post. apply run_reader_post_total. exact (parse_record_fixed_total al). Qed.
+
+(* one step, from a state that satisfies the invariant, for EVERY outcome (reader_next_total
+   above already says that the invariant is kept after an error as well; this is the form used
+   for sequences of polls) *)
+Theorem reader_poll_total : forall (al : alpha) (fuel k : nat) (st : rstate),
+  st_inv st -> nlines (concat (st_src st)) < fuel ->
+  exists l, poll (parse_record_fixed al) fuel k st = Ok l /\ length l = k.
+Proof. intros al fuel k st. apply poll_ok. exact (parse_record_fixed_total al). Qed.
+
+(* with post = 0 this is the consumer of reader_total *)
+Theorem reader_post_0 : forall (parse : parser record) (s : stream),
+  run_reader_post parse 0 s = run_reader parse s.
+Proof. exact run_reader_post_0. Qed.
+
+(* the outcome sequence of a polling consumer does not depend on the chunking either *)
+Theorem reader_post_chunk_independent : forall (parse : parser record) (post : nat) (s1 s2 : stream),
+  concat s1 = concat s2 -> run_reader_post parse post s1 = run_reader_post parse post s2.
+Proof. exact run_reader_post_same. Qed.
+
+(* the extracted checker of the polling consumer's observations: sound, complete ... *)
+Theorem check_c15p_sound : forall (post : nat) (o : list obs),
+  check_c15p post o = true -> holds_c15p post o /\ ~ In BPanic o /\ ~ In BHang o.
+Proof. intros post o H. apply PollProofs.check_c15p_sound in H. split; [exact H|exact (holds_c15p_no_panic post o H)]. Qed.
+
+Theorem check_c15p_complete : forall (post : nat) (o : list obs),
+  holds_c15p post o -> check_c15p post o = true.
+Proof. exact PollProofs.check_c15p_complete. Qed.
+
+Theorem check_c15p_is_check_c15 : forall o : list obs, check_c15p 0 o = check_c15 o.
+Proof. exact check_c15p_0. Qed.
+
+(* ... and passed by the model on every input, for every number of further requests *)
+Theorem model_passes_c15p : forall (al : alpha) (post : nat) (s : stream),
+  check_c15p post (observe_run (run_reader_post (parse_record_fixed al) post s)) = true.
+Proof.
+  intros al post s.
+  destruct (run_reader_post_total (parse_record_fixed al) (parse_record_fixed_total al) post s) as (l & H & Hs).
+  rewrite H. simpl. apply PollProofs.check_c15p_complete, shape_post_holds_c15p, Hs.
+Qed.
+
+(* The end of input is final: once a request has returned the end of input, every later request
+   returns it again (nothing buffered, nothing left to read) -- for every byte string and chunking. *)
+Theorem reader_end_is_final : forall (al : alpha) (s : stream) (post : nat) l rs tail,
+  run_reader_post (parse_record_fixed al) post s = Ok l ->
+  l = map ORec rs ++ OEnd :: tail -> tail = repeat OEnd post.
+Proof. intros al s post. exact (run_reader_post_end_final _ (parse_record_fixed_total al) post s). Qed.
+
+Theorem reader_end_is_final_step : forall (parse : parser record) (fuel : nat) (st st' : rstate),
+  0 < fuel -> st_inv st -> reader_next parse fuel st = Ok (OEnd, st') ->
+  forall k, poll parse fuel k st' = Ok (repeat OEnd k).
+Proof. exact end_is_final. Qed.
+
+(* ---- round 3: streams whose fill_buf fails (TransfacFault.v) ---- *)
+
+(* Without faults the fault model (the one the driver runs against the scripted streams) is
+   the reader model of the theorems above. *)
+Theorem fault_free_agree : forall (parse : parser record) (post : nat) (s : stream),
+  run_reader_post_e parse false post (map EData s) = run_reader_post parse post s.
+Proof. exact fault_free_agree_lemma. Qed.
+
+(* The trace compared with the implementation is the outcome list of the run when the run is
+   Ok, and contains a panic / hang mark otherwise. *)
+Theorem trace_run_ok : forall (parse : parser record) (fixed : bool) (post : nat) (s : estream),
+  match run_reader_post_e parse fixed post s with
+  | Ok l => trace_run_e parse fixed post s = map SOut l
+  | _ => existsb bad_step (trace_run_e parse fixed post s) = true
+  end.
+Proof. exact trace_run_ok_lemma. Qed.
+
+(* The code AS IT IS, over a BufRead that may fail at any `fill_buf` call, any number of times
+   (and be interrupted): for the consumer of C15 -- the one that stops at the first error or at
+   the end of input -- Reader::new and every request return; an I/O error is returned as an
+   error.  (This removes the assumption "the BufRead returns no I/O error" for that consumer.) *)
+Theorem reader_total_faults_stop : forall (al : alpha) (s : estream),
+  exists l, run_reader_post_e (parse_record_fixed al) false 0 s = Ok l /\
+            exists rs o, l = map ORec rs ++ [o] /\ (o = OEnd \/ exists e, o = OErr e).
+Proof.
+  intros al s.
+  destruct (run_reader_faults_stop_total (parse_record_fixed al) (parse_record_fixed_total al) s)
+    as (l & H & rs & o & -> & Ho).
+  exists (map ORec rs ++ [o]). split; [exact H|]. exists rs, o. split; [reflexivity|].
+  destruct o; simpl in Ho; [discriminate|right; eauto|left; reflexivity].
+Qed.
+
+(* With the repair proposed for F-T1 (`last = buffer.len()` in both loops; flag fixed = true):
+   every script of faults and every number of further requests -- no panic, no hang. *)
+Theorem reader_total_faults_repaired : forall (al : alpha) (post : nat) (s : estream),
+  exists l, run_reader_post_e (parse_record_fixed al) true post s = Ok l /\
+            exists rs o tail, l = map ORec rs ++ o :: tail /\ is_rec o = false /\ length tail = post.
+Proof. intros al post s. apply run_reader_post_repaired_total. exact (parse_record_fixed_total al). Qed.
+
+(* The reader AS THE TRANSLATOR FINDS IT in reader.rs on this run (GenReader.v: how `last` is
+   advanced, the literals given to starts_with): the model the driver runs against the scripted
+   streams.  Whatever the flag, the consumer that stops is total under faults; and once the
+   repair of F-T1 is in the source the polling consumer is total as well. *)
+Theorem reader_total_faults_stop_current : forall (al : alpha) (s : estream),
+  exists l, run_reader_post_e (parse_record_fixed al) reader_last_is_buffer_len 0 s = Ok l /\
+            exists rs o, l = map ORec rs ++ [o] /\ (o = OEnd \/ exists e, o = OErr e).
+Proof.
+  intros al s. destruct reader_last_is_buffer_len.
+  - destruct (reader_total_faults_repaired al 0 s) as (l & H & rs & o & tl & -> & Ho & Ht).
+    destruct tl; [|discriminate]. eexists. split; [exact H|]. exists rs, o. split; [reflexivity|].
+    destruct o; simpl in Ho; [discriminate|right; eauto|left; reflexivity].
+  - exact (reader_total_faults_stop al s).
+Qed.
+
+Theorem reader_total_faults_current : reader_last_is_buffer_len = true ->
+  forall (al : alpha) (post : nat) (s : estream),
+  exists l, run_reader_post_e (parse_record_fixed al) reader_last_is_buffer_len post s = Ok l /\
+            exists rs o tail, l = map ORec rs ++ o :: tail /\ is_rec o = false /\ length tail = post.
+Proof. intros H. rewrite H. exact reader_total_faults_repaired. Qed.
+
+Theorem gen_prefixes_are_modelled :
+  gen_new_prefixes = [slashes; [x56; x56]] /\ gen_next_prefixes = [slashes; slashes].
+Proof. split; reflexivity. Qed.
+
+(* ... in executable form: the trace the driver computes for a scripted stream passes the extracted
+   checker -- with the repair for every number of further requests, as it is for the consumer that stops *)
+Theorem model_passes_c15p_faults_repaired : forall (al : alpha) (post : nat) (s : estream),
+  check_c15p post (observe_trace (trace_run_e (parse_record_fixed al) true post s)) = true.
+Proof.
+  intros al post s.
+  destruct (run_reader_post_repaired_total (parse_record_fixed al) (parse_record_fixed_total al) post s) as (l & H & Hs).
+  pose proof (trace_run_ok_lemma (parse_record_fixed al) true post s) as T. rewrite H in T. rewrite T.
+  unfold observe_trace. rewrite map_map. cbn [obs_of_step].
+  apply PollProofs.check_c15p_complete, shape_post_holds_c15p, Hs.
+Qed.
+
+Theorem model_passes_c15_faults_stop : forall (al : alpha) (s : estream),
+  check_c15 (observe_trace (trace_run_e (parse_record_fixed al) false 0 s)) = true.
+Proof.
+  intros al s.
+  destruct (run_reader_faults_stop_total (parse_record_fixed al) (parse_record_fixed_total al) s) as (l & H & Hs).
+  pose proof (trace_run_ok_lemma (parse_record_fixed al) false 0 s) as T. rewrite H in T. rewrite T.
+  unfold observe_trace. rewrite map_map. cbn [obs_of_step].
+  apply check_c15_complete, shape_holds_c15, Hs.
+Qed.
+
+(* The hand-written tables of the parser model against the tables the translator reads from the
+   source on this run (GenReader.v): the line codes parse_tag accepts, and -- for both alphabets --
+   K and symbol letter -> matrix column (`S::from_char` = the arms of from_ascii, `as_index`). *)
+Fixpoint gen_lookup (l : list (byte * nat)) (b : byte) : option nat :=
+  match l with
+  | [] => None
+  | (x, v) :: t => if beq x b then Some v else gen_lookup t b
+  end.
+
+Theorem tags_are_generated : forall a b : byte,
+  (match classify a b with Some _ => true | None => false end) =
+  existsb (fun t => str_eqb t [a; b]) gen_tags.
+Proof. intros a b. destruct a; try reflexivity; destruct b; reflexivity. Qed.
+
+Theorem sym_index_is_generated : forall b : byte,
+  sym_index Dna b = gen_lookup gen_from_ascii_dna b /\
+  sym_index Protein b = gen_lookup gen_from_ascii_protein b.
+Proof. intros b. destruct b; split; reflexivity. Qed.
+
+Theorem alpha_k_is_generated : alpha_k Dna = gen_k_dna /\ alpha_k Protein = gen_k_protein.
+Proof. split; reflexivity. Qed.
+
+(* F-T1 (finding of round 3, confirmed on the code): with a BufRead that fails ONCE in the middle
+   of a line and then continues, the code as it is panics when it is polled again: std's read_line
+   keeps the valid partial line "NA" in the buffer, `last` is not advanced, the rest of the line
+   is counted from the wrong offset and `buffer[last..]` lands inside the two-byte character. *)
+Definition ft1_stream : estream :=
+  [EData ["I";"D";" ";"x";x0a;"N";"A"]%byte; EFail;
+   EData [" ";xc3;xa9;xc3;xa9;xc3;xa9;x0a;"/";"/";x0a]%byte].
+
+Theorem reader_polls_fault_refuted :
+  run_reader_post_e (parse_record_fixed Dna) false 1 ft1_stream = Panic 2 /\
+  trace_run_e (parse_record_fixed Dna) false 1 ft1_stream = [SOut (OErr EIo); SPanic].
+Proof. split; vm_compute; reflexivity. Qed.
+
+(* the same stream with the proposed repair (`last = buffer.len()`): the line is reassembled *)
+Example ft1_repaired :
+  exists r, run_reader_post_e (parse_record_fixed Dna) true 2 ft1_stream = Ok [OErr EIo; ORec r; OEnd] /\
+            r_id r = Some ["x"]%byte /\ r_name r = Some [xc3;xa9;xc3;xa9;xc3;xa9]%byte.
+Proof. eexists. vm_compute. repeat split. Qed.
+
 Check parser_total : forall al input,
   parse_record_fixed al input <> PIncomplete /\ parse_record_fixed al input <> PFuel.
 Check reader_total : forall al s,
@@ -95,6 +292,11 @@ Check reader_total : forall al s,
             exists rs o, l = map ORec rs ++ [o] /\ (o = OEnd \/ exists e, o = OErr e).
 Check model_passes_c15 : forall al s,
   check_c15 (observe_run (run_reader (parse_record_fixed al) s)) = true.
+Check reader_polls_total : forall al s k,
+  exists l, run_polls (parse_record_fixed al) k s = Ok l /\ length l = k.
+Check reader_total_post : forall al s post,
+  exists l, run_reader_post (parse_record_fixed al) post s = Ok l /\
+            exists rs o tail, l = map ORec rs ++ o :: tail /\ is_rec o = false /\ length tail = post.
 
 (* ---- non-vacuity: the model really reads records, reports errors and the end ---- *)
 Local Open Scope byte_scope.
@@ -123,3 +325,23 @@ Proof. vm_compute. reflexivity. Qed.
 Example ex_inv_offset :
   exists st, reader_new 10 [ex_file] = Ok st /\ st_last st = 19 /\ length (st_buf st) = 22.
 Proof. eexists. vm_compute. repeat split. Qed.
+
+(* polling after an invalid-UTF-8 line in the MIDDLE of a record (`last` = 5 > 0 when the error is
+   returned): the bytes of the bad line are gone, the next request goes on with the following lines *)
+Example ex_poll_after_utf8_error :
+  exists r1 r2, run_reader_post (parse_record_fixed Dna) 3
+    [["I";"D";" ";"x";x0a; "N";"A";" ";xff;x0a; "/";"/";x0a; "I";"D";" ";"y";x0a; "/";"/";x0a]]
+    = Ok [OErr EIo; ORec r1; ORec r2; OEnd] /\ r_id r1 = Some ["x"] /\ r_id r2 = Some ["y"].
+Proof. eexists _, _. vm_compute. repeat split. Qed.
+
+(* after a parse error the buffer is kept: every later request returns the error again *)
+Example ex_poll_after_parse_error :
+  run_reader_post (parse_record_fixed Dna) 2
+    [["P";"0";" ";"A";" ";"C";x0a; "0";"1";" ";"1";x0a; "/";"/";x0a; "I";"D";" ";"y";x0a; "/";"/";x0a]]
+    = Ok [OErr ENom; OErr ENom; OErr ENom].
+Proof. vm_compute. reflexivity. Qed.
+
+(* after the end of input: the end of input again *)
+Example ex_poll_after_end :
+  exists r, run_reader_post (parse_record_fixed Dna) 2 [["I";"D";" ";"x";x0a;"/";"/";x0a]] = Ok [ORec r; OEnd; OEnd; OEnd].
+Proof. eexists. vm_compute. reflexivity. Qed.
